@@ -18,7 +18,7 @@ mkdir -p /tmp/mutharness
 rsync -a --delete --exclude 'target*' /verif/harness/ /tmp/mutharness/
 grep -rl '/repo/' /tmp/mutharness --include=Cargo.toml | xargs sed -i 's|"/repo/|"/tmp/mutrepo/|g'
 cd /tmp/mutharness && CARGO_TARGET_DIR=/verif/harness/target-mut cargo build --release -p $BIN 2>&1 | grep -E "^error" -A8 | head -20
-mkdir -p /tmp/mutout/$ID; cp /verif/known_findings.json /tmp/mutout/$ID/
+rm -rf /tmp/mutout/$ID; mkdir -p /tmp/mutout/$ID; cp /verif/known_findings.json /tmp/mutout/$ID/
 if [ "$ID" = C09 ]; then
   CARGO_TARGET_DIR=/verif/harness/target-mut cargo build --release -p model-mon 2>&1 | grep -E "^error" -A8 | head -20
   VERIF_PART=model VERIF_DIR=/tmp/mutout/$ID /verif/harness/target-mut/release/model-mon $ID --tier $TIER 2>&1 | grep -E "^VIOLATION|^KNOWN|verdict=|inconclusive" | cut -c1-220 | head -12
